@@ -25,6 +25,7 @@ class QuicPacket:
         self.isserver = isserver
         self.first_byte = first_byte
         self.ts = ts
+        self.packet_num = None  # Retry and Version Negotiation packets carry no packet number
 
 
 class LongQuicPacket(QuicPacket):
